@@ -26,6 +26,7 @@ EXPLANATION = (
     "(min(right edges) - max(left edges)) * (min(bottoms) - max(tops)). (R08.11) every polygon the clipper returns is "
     "produced by its loop over the clipping edges: no path around the loop hands back an input polygon."
     ' (R08.12) the tolerance constant of the box code is the public `EPS` = 1e-5.')
+EXPLANATION += " (R08.13) the constructors store the caller's values unchanged (new / new_with_confidence: every parameter; rotate / rotate_mut: the angle); R08.9 reads `match angle {Some(a) => .., None => (1, 0)}` as the formula at angle.unwrap_or(0) and reports a constant taken while the box has an angle."
 NOT_DECIDED = ["exactness of the clipped area and of the IoU value (f64 geometry)", "symmetry / rigid-motion invariance "
                "as numeric statements", "agreement of the closed form with the general path",
                "soundness of the pre-filter bound as an inequality (only its wiring is decided)"]
@@ -58,10 +59,12 @@ def is_isect(e):
     return e.kind == 'call' and e.name.rsplit('::', 1)[-1] == 'intersection' and len(e.args) == 2
 
 
-def iou_rules(ctx):
+def iou_rules(ctx, R1='R08.1', R2='R08.2', kinds=None):
     n1 = n2 = 0
     for kind, (path, size_fields) in IMPLS.items():
-        b = ctx.anchor('R08.1', path)
+        if kinds is not None and kind not in kinds:
+            continue
+        b = ctx.anchor(R1, path)
         if b is None:
             continue
         ras = list(result_assignments(b))
@@ -71,7 +74,7 @@ def iou_rules(ctx):
         nones = [(p.site[0] if p.site else bb, p) for bb, k, p in ras
                  if k == 'expr' and p.kind == 'agg' and p.name.endswith('None')]
         if not somes:
-            ctx.fail('R08.1', b, kind + ':shape', 'ANCHOR-MISSING: no `Some(..)` result found')
+            ctx.fail(R1, b, kind + ':shape', 'ANCHOR-MISSING: no `Some(..)` result found')
             continue
         for bb, p in somes:
             v = uncast(p.args[0])
@@ -107,7 +110,7 @@ def iou_rules(ctx):
                         why = 'area terms read %s (expected one product of %s per operand)' % (
                             [sorted(s[1]) for s in sides], sorted(size_fields))
             n1 += 1
-            ctx.check(ok, 'R08.1', b, kind + ':iou=I/(A_l+A_r-I)', repr(v)[:160],
+            ctx.check(ok, R1, b, kind + ':iou=I/(A_l+A_r-I)', repr(v)[:160],
                       'the value returned by %s is %r: %s' % (path.split(' as ')[0].lstrip('<'), v, why))
             # R08.2 present only when I != 0
             conds = path_conditions(b, bb)
@@ -118,7 +121,7 @@ def iou_rules(ctx):
                 if o and o[2].kind == 'const' and o[2].const_value() in ('0.0', '0') and o[0] in ('Ne', 'Gt'):
                     nz = True
             n2 += 1
-            ctx.check(nz, 'R08.2', b, 'absent-iff-no-overlap',
+            ctx.check(nz, R2, b, 'absent-iff-no-overlap',
                       'Some(..) only under intersection != 0',
                       '%s returns Some(iou) without requiring intersection != 0: for boxes that do not overlap the IoU '
                       'is Some(0.0) instead of absent' % path.split(' as ')[0].lstrip('<'))
@@ -136,7 +139,7 @@ def iou_rules(ctx):
                 if o and o[2].kind == 'const' and o[2].const_value() in ('0.0', '0') and o[0] in ('Eq', 'Le'):
                     z = True
             n2 += 1
-            ctx.check(z, 'R08.2', b, kind + ':none-only-when-no-overlap', '',
+            ctx.check(z, R2, b, kind + ':none-only-when-no-overlap', '',
                       'with both boxes present the IoU can be absent although the intersection is not 0')
     return n1, n2
 
@@ -450,6 +453,9 @@ def run(ctx):
     ctx.rule('R08.10', 'exact formulas: IoU == I / (A_l + A_r - I) as a rational function (3 siblings); axis-aligned '
                        'intersection == (min right - max left) * (min bottom - max top)')
     ctx.evaluated('R08.10', geomlib.iou_rule(ctx, 'R08.10') + geomlib.extent_rule(ctx, 'R08.10'), 4)
+    ctx.rule('R08.13', 'the constructors of the rotated box store what the caller passed (an angle reduced in f32 is a '
+                       'different rectangle: "rotated by any angle")')
+    ctx.evaluated('R08.13', geomlib.stored_unchanged_rule(ctx, 'R08.13'), 13)
     ctx.rule('R08.5', 'pre-filter wiring: both centres, sum of both radii; radius from both half extents')
     n = C20.r4(ctx, 'R08.5', ('too_far',))
     n += radius_rule(ctx, 'R08.5')
